@@ -8,7 +8,7 @@
    `saturating_as::<i32>()`), which IS modelled; the hypotheses `isect_nosat` / `join_nosat` say that the
    cast is not reached (the rounded quotient fits an i32), `jline_ok` is the coordinate range +-511 in
    which that is guaranteed for arbitrary pairs of lines. *)
-From EG Require Import Base.Prelude Model.Geometry Model.Line Model.Thickline Model.Join Model.JoinTri Proofs.Join.
+From EG Require Import Base.Prelude Model.Geometry Model.Line Model.Thickline Model.Join Model.JoinTri Proofs.Join Proofs.JoinTri.
 Set Default Timeout 60.
 
 (* the arithmetic core of repair a4a7ab8 (floor-based rounding): adding k divisors to the numerator moves the
